@@ -287,7 +287,7 @@ func c13Run(c Case) (Result, error) {
 		var k hash.Hasher
 		p, msg := catch(func() { k, err = hash.NewKMAC_128(unhx(in.Key), unhx(in.Cust), in.OutSize) })
 		if p {
-			return Result{}, fmt.Errorf("NewKMAC_128 panicked: %s", msg)
+			return Result{}, implViolation("NewKMAC_128 panicked: %s", msg)
 		}
 		ok := err == nil
 		algTerm = fmt.Sprintf("(AKmac %s %s (%d)%%Z %s)", cqs(in.Key), cqs(in.Cust), in.OutSize, cqbool(ok))
